@@ -76,6 +76,19 @@ theorem c08_tx_conserved (st : State) (blk : Block) (i : Nat) (tx : Tx) (bb : Ba
   unfold txSpec
   omega
 
+/-- **OP_RETURN outputs never hold runes (one transaction of the model).**  After a successful
+`indexRunesTx`: rows of other transactions' outpoints are what they were once the spent inputs'
+rows were removed; no OP_RETURN output of this transaction has a row; nothing is written beyond
+the transaction's outputs.  (Hypothesis: the txid had no rows before.) -/
+theorem c08_rows_only_on_spendable_outputs (st : State) (blk : Block) (i : Nat) (tx : Tx) (bb : Balances)
+    (st' : State) (bb' : Balances) (evs : List Event)
+    (hok : indexRunesTx st blk i tx bb = .ok (st', bb', evs))
+    (hfresh : ∀ v, AL.get st.balances ⟨tx.txid, v⟩ = none) :
+    (∀ o : OutPoint, o.txid ≠ tx.txid → AL.get st'.balances o = AL.get (spendAll st.balances tx.inputs) o) ∧
+    (∀ v, opretAt tx v = true → AL.get st'.balances ⟨tx.txid, v⟩ = none) ∧
+    (∀ v, v ≥ tx.outputs.length → AL.get st'.balances ⟨tx.txid, v⟩ = none) :=
+  indexRunesTx_rows hok hfresh
+
 /-- A transaction whose inputs hold nothing of `r`, which neither mints nor etches `r`, cannot make
 `r` appear anywhere: "rune balances appear only through premine and mints". -/
 theorem c08_nothing_from_nothing (st : State) (blk : Block) (i : Nat) (tx : Tx) (bb : Balances)
